@@ -46,17 +46,17 @@ pub fn build(rng: &mut Rng, tier: u32) -> Built {
         check: Box::new(move |r| {
             let mut v = vec![];
             if early.load(Ordering::SeqCst) > 0 {
-                v.push(format!("{} returns from a generation before all {} parties had arrived", early.load(Ordering::SeqCst), n));
+                v.push(format!("early release: {} returns from a generation before all {} parties had arrived", early.load(Ordering::SeqCst), n));
             }
             let complete = r.deadlock.is_none() && !r.budget_exceeded && r.panics.is_empty();
             for g in 0..rounds {
                 let l = leaders[g].load(Ordering::SeqCst);
                 let p = passed[g].load(Ordering::SeqCst);
                 if l > 1 || (complete && l != 1) || (p == n && l != 1) {
-                    v.push(format!("generation {g}: {l} leaders ({p} of {n} parties passed)"));
+                    v.push(format!("leaders: generation {g} has {l} leaders ({p} of {n} parties passed)"));
                 }
                 if complete && p != n {
-                    v.push(format!("generation {g}: only {p} of {n} parties passed"));
+                    v.push(format!("left behind: generation {g}, only {p} of {n} parties passed"));
                 }
             }
             v
